@@ -20,6 +20,11 @@ pub fn generate(r: &mut Rng, tier: Tier) -> Scenario {
             g.duplicate_label = false;
         }
     });
+    let mut world = world;
+    if r.chance(1, 6) {
+        // a file included twice: two identities (random ids) under one file name
+        crate::world::include_twice(&mut world, r);
+    }
     // now and then the same file is included twice from one place (a snippet without labels of
     // its own keeps the program analysable)
     let mut world = world;
